@@ -25,6 +25,12 @@ CLAIMED = {
  "C16": dict(text="Provenance analysis of the solver: every find() key is derived from the rule tree and its receiver from the document; every recursive call hands on the document, an addressed object, or the private Cache/Passthrough; matrix cells (synthetic keys) are evaluated only against Cache/Passthrough; cache slot i is filled from find(&columns[i]); no keys()/len() enumeration; Cache/Passthrough private; in the optimiser the synthetic key's def-use chain ends in Expression::Matrix. Hence the verdict is a function of addressed values only and synthetic keys never reach the user's document.",
              note="Assumes user Document/Object/Array impls are pure functions of their arguments.",
              tech="static analysis: intra-procedural provenance (origin) dataflow over THIR bindings + def-use rule in optimiser::matrix + visibility facts", ref="3.5 PROV, 4/C16"),
+ "C10": dict(text="Path resolution is one default trait method (two cfg copies). Its per-segment step table is extracted from both copies and compared with the spec: split on '.', descend only through objects, root lookup on self, index form requires an array and nth(parsed usize), every failing step returns None and the loop state is never reset to the at-root value, bracket iterator exhausted; no impl overrides find; all Document impls delegate to it; the solver's nested-block arm recurses on objects, is existential over arrays (array loops evaluated as models over members x elements oracle tables, exhaustively for <=3 members x <=2 elements) and false on scalars.",
+             note="Decides the lookup algorithm, not that 'nested mapping == dotted key' for every document beyond both running the same get chain. Object::get impls of users are trusted.",
+             tech="static analysis: step-table extraction from THIR for both cfg variants, state-discipline rule, sibling diff, model evaluation of extracted array loops", ref="4/C10"),
+ "C11": dict(text="Every adapter (AsValue for primitives, Option, Vec, HashSet, Object, serde_yaml/serde_json values; Array::iter; Object::get; Document delegates) is extracted from the typed tree, macro instances included, and compared with the specification table (value kind, signedness, widening cast, borrowed strings, slice order for Vec, key unchanged, number accessor consistent with its guard; yaml == json sibling). With the single shared Object::find (C10) equal logical content yields equal Value trees and therefore equal verdicts.",
+             note="Third-party parsers are trusted to produce the number representation they document.",
+             tech="static analysis: adapter-table extraction from THIR vs spec table + sibling agreement (yaml/json)", ref="4/C11"),
 }
 PENDING = {}
 props = [json.loads(l) for l in open(os.path.join(V, "properties.jsonl"))]
